@@ -648,8 +648,16 @@ func RandomScenario(r *rand.Rand, maxEvents int, probes bool) (*Scn, GenCfg, str
 
 // Order returns a parents-first order (indices into s.Evs) chosen by kind and seed.
 //   0 random topological   1 latest-ready-first   2 one validator as late as possible
-//   3 cheaters' events first   4 cheaters' events last   5 creation order   6 earliest of the highest frame last
+//   3 cheaters' events first   4 cheaters' events last   5 creation order   6 lowest frame first
+//   7 the seed-th linear extension (all parents-first orders, enumerated; small DAGs only)
 func Order(s *Scn, kind int, seed int64) []int {
+	if kind%8 == 7 {
+		all := LinearExtensions(s, 5041)
+		if len(all) == 0 {
+			return nil
+		}
+		return all[int(uint64(seed)%uint64(len(all)))]
+	}
 	n := len(s.Evs)
 	pos := map[int]int{}
 	for i, e := range s.Evs {
@@ -711,7 +719,7 @@ func Order(s *Scn, kind int, seed int64) []int {
 			return a[r.Intn(len(a))]
 		}
 		var pick int
-		switch kind % 7 {
+		switch kind % 8 {
 		case 0:
 			pick = ready[r.Intn(len(ready))]
 		case 1:
@@ -731,6 +739,50 @@ func Order(s *Scn, kind int, seed int64) []int {
 		done[pick] = true
 		out = append(out, pick)
 	}
+	return out
+}
+
+// LinearExtensions enumerates the parents-first orders of s.Evs (at most limit of them).
+func LinearExtensions(s *Scn, limit int) [][]int {
+	n := len(s.Evs)
+	pos := map[int]int{}
+	for i, e := range s.Evs {
+		pos[e.ID] = i
+	}
+	var out [][]int
+	done := make([]bool, n)
+	cur := make([]int, 0, n)
+	var rec func()
+	rec = func() {
+		if len(out) >= limit {
+			return
+		}
+		if len(cur) == n {
+			out = append(out, append([]int{}, cur...))
+			return
+		}
+		for i, e := range s.Evs {
+			if done[i] {
+				continue
+			}
+			ok := true
+			for _, p := range e.Parents {
+				if j, known := pos[p]; known && !done[j] {
+					ok = false
+					break
+				}
+			}
+			if !ok {
+				continue
+			}
+			done[i] = true
+			cur = append(cur, i)
+			rec()
+			cur = cur[:len(cur)-1]
+			done[i] = false
+		}
+	}
+	rec()
 	return out
 }
 
